@@ -58,6 +58,32 @@ func genParText(r *Rng) (string, string) {
 			kind += "+" + k2
 		}
 		return s, "damaged:" + kind
+	case k == 8 && r.Chance(2, 3):
+		// several rule-violating lines in different records, clean records in between
+		d := genDoc(r, docOpts{today: today, maxRecords: r.Pick2([]int{6, 8, 10, 14, 20})})
+		lines := strings.SplitAfter(d.render(), "\n")
+		nerr := r.Range(2, 4)
+		for e := 0; e < nerr && len(lines) > 0; e++ {
+			i := r.Intn(len(lines))
+			l := lines[i]
+			if strings.Trim(l, " \t\r\n") == "" {
+				continue
+			}
+			switch r.Intn(4) {
+			case 0:
+				lines[i] = " " + l // wrong indentation
+			case 1:
+				lines[i] = strings.Replace(l, ":", ";", 1)
+			case 2:
+				lines[i] = strings.TrimRight(l, "\r\n") + " (x" + l[len(strings.TrimRight(l, "\r\n")):]
+				if !strings.HasPrefix(l, " ") && !strings.HasPrefix(l, "\t") {
+					lines[i] = "x" + l
+				}
+			default:
+				lines[i] = strings.Replace(l, "-", "--", 1)
+			}
+		}
+		return strings.Join(lines, ""), "errlines"
 	default:
 		n := r.Range(0, 24)
 		var b strings.Builder
